@@ -1,6 +1,7 @@
 """C20: API-specific diagnostics are about the real API, not a namesake."""
 import json
 import os
+import shutil
 
 import vlib
 from props import scanlib
@@ -18,8 +19,13 @@ def run(tier):
         vlib.harness_fail("transplant: " + (so + se)[-1500:])
     tp_info = json.loads(so.strip().splitlines()[-1])
     jobs.append((ws, [l for l in open(tp_pats).read().split() if l], "TP"))
+    # hand-written shapes: builtins shadowed by function-valued locals, parameters, package variables, types and
+    # fields, each in the exact statement shape the builtin-specific checkers look for (+ the real twin)
+    shutil.copytree(os.path.join(vlib.VERIF, "corpus", "namesake_shapes"), os.path.join(ws, "nshapes"))
+    shapes = sorted(os.listdir(os.path.join(ws, "nshapes")))
+    jobs.append((ws, ["./nshapes/" + d for d in shapes], "NS"))
     scanlib.run_sharded(res, vw, "c20", jobs, {"C20"},
-                        per_task_extra=lambda idx, label, work: ["-label", "tp"] if label.startswith("TP-") else [])
+                        per_task_extra=lambda idx, label, work: ["-label", "tp"] if label.startswith("TP-") else (["-label", "ns"] if label.startswith("NS-") else []))
     d = res.counts.get("diagnostics_of_api_checkers", 0)
     confirmed = res.sets.get("checkers_confirmed_on_real_api", set())
     entries = res.counts.get("subject_table_entries_registered", 0) // max(1, res.counts.get("workers_finished", 1))
@@ -41,6 +47,10 @@ def run(tier):
                            resolved_to_real_api=res.counts.get("tp_resolved_to_real_api", 0),
                            namesake_reports=res.counts.get("tp_namesake_reports", 0)),
     }
+    cov["namesake_shapes"] = {"packages_type_checked": len(res.sets.get("ns_packages_type_checked", ())), "of": len(shapes),
+                              "diagnostics": res.counts.get("ns_diagnostics_of_api_checkers", 0), "resolved_to_real_api": res.counts.get("ns_resolved_to_real_api", 0)}
+    if len(res.sets.get("ns_packages_type_checked", ())) != len(shapes) or res.counts.get("ns_resolved_to_real_api", 0) < 6:
+        vlib.harness_fail("namesake shape corpus: %s" % cov["namesake_shapes"])
     tp_ok = len(res.sets.get("tp_checkers_with_type_checked_examples", ())) >= 0.8 * entries and tp_info.get("shadow_functions", 0) >= 300
     floor = d >= 2000 and entries > 0 and len(confirmed) >= 0.8 * entries and cls.get("namesake", 0) >= 100 and tp_ok
     vlib.finish(res, "exploration", tier, cov, floor_ok=floor, floor_msg="diags=%d confirmed=%d/%d" % (d, len(confirmed), entries),
